@@ -266,6 +266,19 @@ def spec_call(eng, st, node):
       vname = node.args[0].id
       lo = eng.need_int(st, eng.ev(node.args[1], st))
       hi = eng.need_int(st, eng.ev(node.args[2], st))
+      if isinstance(lo, int) and isinstance(hi, int) and hi <= lo:
+        return name == "forall"     # empty range
+      if isinstance(lo, int) and isinstance(hi, int) and hi - lo <= 32:
+        from .engine import Frame
+        outs = []
+        for val in range(lo, hi):
+          fr = Frame({vname: val}, st.frame, st.frame.module, fname=st.frame.fname)
+          st.frames.append(fr)
+          try:
+            outs.append(eng.truthy(st, eng.ev(node.args[3], st)))
+          finally:
+            st.frames.pop()
+        return eng.and_(*outs) if name == "forall" else eng.or_(*outs)
       vs, body, axioms = _bind_eval(eng, st, [vname], node.args[3])
       v = vs[0]
       rng = z3.And(to_z3(lo) <= v, v < to_z3(hi))
@@ -301,6 +314,8 @@ def spec_call(eng, st, node):
     raise_unsupported("forall/exists arity")
   if name == "implies":
     a = eng.truthy(st, eng.ev(node.args[0], st))
+    if isinstance(a, bool) and not a:
+      return True
     b = eng.truthy(st, eng.ev(node.args[1], st))
     return eng.implies(a, b)
   if name == "iff":
@@ -837,6 +852,8 @@ def _norm_index(eng, st, n, idx, node, what="list index out of range"):
   eng.implicit(st, "IndexError", z3.And(-nn <= ii, ii < nn), node, what)
   if isinstance(i, int):
     return i if i >= 0 else nn + i
+  if st.spec:
+    return ii   # contract language: symbolic indices are taken as non-negative positions (no wrap-around)
   if eng.known(st, ii >= 0):
     return ii
   return z3.If(ii < 0, ii + nn, ii)
@@ -861,6 +878,8 @@ def tuple_sym_index(eng, st, items, i, node, checked=False):
     i = _norm_index(eng, st, n, i, node)
   if n == 0:
     from .engine import Infeasible
+    if st.spec:
+      raise_unsupported("specification indexes an empty sequence outside a guard")
     raise Infeasible()
   t = None
   for it in items:
@@ -1344,6 +1363,11 @@ def comprehension(eng, st, node, kind):
     if kind == "set":
       return st.alloc(HSet(items=make_set_items(eng, st, out)))
     return st.alloc(HDict(items={hashable(eng, st, k): v for k, v in out}))
+  if seq[0] == "range" and gen.ifs and isinstance(seq[3], int):
+    # filtered comprehension over a symbolic range: decidable only if the range is small -> case split on its bounds
+    lo = concretize(eng, st, seq[1])
+    hi = concretize(eng, st, seq[2])
+    return comprehension_concrete(eng, st, node, kind, list(range(lo, hi, seq[3])))
   if kind in ("list", "gen") and not gen.ifs:
     # map over a symbolic sequence: out[j] == elt(seq[j]) for all j (pure element expression)
     n = iter_len(eng, st, seq)
@@ -1366,6 +1390,43 @@ def comprehension(eng, st, node, kind):
     rep = _lambda_rep(t, elt, j)
     return st.alloc(HList(items=None, length=n, elem_t=t, rep=rep))
   raise_unsupported("comprehension over symbolic sequence with filter")
+
+
+def concretize(eng, st, term, max_cases=10):
+  """Forks the path on the value of an int term that the path condition confines to a small interval."""
+  if isinstance(term, int):
+    return term
+  term = to_z3(term)
+  lo = None
+  for cand in range(-1, 3):
+    if eng.known(st, term >= cand):
+      lo = cand
+  if lo is None:
+    raise_unsupported("cannot concretize: no small lower bound")
+  for v in range(lo, lo + max_cases):
+    if eng.choose(st, term == v):
+      return v
+  raise_unsupported("cannot concretize: more than max_cases values")
+
+
+def comprehension_concrete(eng, st, node, kind, items):
+  from .engine import Frame
+  gen = node.generators[0]
+  out = []
+  fr = Frame({}, st.frame, st.frame.module, fname=st.frame.fname)
+  st.frames.append(fr)
+  try:
+    for x in items:
+      eng.assign(st, gen.target, x)
+      if all(eng.choose(st, eng.truthy(st, eng.ev(c, st))) for c in gen.ifs):
+        out.append(eng.ev(node.elt, st))
+  finally:
+    st.frames.pop()
+  if kind == "list":
+    return st.alloc(HList(items=out))
+  if kind == "gen":
+    return tuple(out)
+  return st.alloc(HSet(items=make_set_items(eng, st, out)))
 
 
 def _comp_nested(eng, st, node, kind):
